@@ -417,7 +417,12 @@ func (c *fnCtx) nested(f func() flow) flow {
 	return f()
 }
 
-func (c *fnCtx) simple(s *Stmt) flow { return flow{norm: s} }
+func (c *fnCtx) simple(s *Stmt) flow {
+	if s == nil {
+		s = skip()
+	}
+	return flow{norm: s}
+}
 
 func (c *fnCtx) stmt(s ast.Stmt) flow {
 	switch x := s.(type) {
@@ -618,11 +623,8 @@ func (c *fnCtx) rangeStmt(x *ast.RangeStmt) flow {
 		}
 	}
 	body := c.stmts(x.Body.List)
-	var again *Stmt
-	if g || isChan {
-		again = rd // the map is read again at every iteration
-	}
-	return c.loopFlow(rd, body, again, true)
+	// loopFlow re-evaluates rd at every iteration: the guarded map is read again each time round
+	return c.loopFlow(rd, body, nil, true)
 }
 
 func (c *fnCtx) clauses(list []ast.Stmt) flow {
